@@ -60,7 +60,7 @@ def opProcess (shape data nums dens res : List Int) : String :=
   | _ => "err BadOp"
 
 def errCode : RErr → Int
-  | .valueError => 1 | .keyError => 2 | .runtimeError => 3
+  | .valueError => 1 | .keyError => 2 | .runtimeError => 3 | .indexError => 4
 
 def parseBatches : List (List Int) → Option (List (RBatch (Int × Int)))
   | [] => some []
@@ -81,39 +81,115 @@ def opRecon (table : List Int) (gs : List (List Int)) : String :=
       [(f : Int), (vol.length : Int)] ++ vol.map (·.1) ++ vol.map (·.2)
     okG (ys ++ match r.2 with | none => [] | some e => [[-1, errCode e]])
 
-def opPredict (layout cfg shp res nums dens data : List Int) : String :=
-  match cfg, shp, resOf res with
-  | [world, rank, bs], [h, w, cplx], some res =>
-    let total := (nats layout).sum
-    let per := (h * w * (if cplx = 1 then 2 else 1)).toNat
-    if world ≤ 0 ∨ rank < 0 ∨ rank ≥ world ∨ bs ≤ 0 ∨ layout.any (· ≤ 0) ∨ data.length ≠ total * per
-        ∨ nums.length ≠ total ∨ dens.length ≠ total ∨ (cplx = 0 ∧ w = 2) then "err BadOp" else
-    let raw := (chunksOf per data).toArray
+def errName : RErr → String
+  | .valueError => "ValueError" | .keyError => "KeyError" | .runtimeError => "RuntimeError"
+  | .indexError => "IndexError"
+
+def cropKey (c : Int) : CropKey := if c = 1 then .header else if c = 2 then .other else .none
+
+/-- `_process_output(data, scales, resolution=_compute_resolution(key, reconstruction_size))` on one batch -/
+def opProcBatch (key : Int) (shape data nums dens : List Int) (recon : List (List Int)) : String :=
+  match shape with
+  | [b, h, w] =>
+    let scales := List.zip nums dens
+    if w = 2 ∨ data.length ≠ (b * h * w).toNat ∨ scales.length ≠ b.toNat then "err BadOp" else
+    let imgs : List (Img Int) := (chunksOf (h * w).toNat data).map (toRows w.toNat)
+    if !((List.zip imgs scales).all fun (i, s) => i.all fun r => r.all (exactQ · s)) then "err Inexact" else
+    -- element 0 of the batch for every dimension
+    let recons : List (List Nat) := (List.range b.toNat).map fun k => recon.map fun d => (d.getD k 0).toNat
+    match processBatch mulQ (cropKey key) imgs scales recons with
+    | .error e => "err " ++ errName e
+    | .ok out => fmtImgs out
+  | _ => "err BadOp"
+
+/-- offsets of the volumes' data in the flat data group -/
+def offsets (sizes : List Nat) : List Nat := (sizes.foldl (fun (acc : List Nat × Nat) n => (acc.1 ++ [acc.2], acc.2 + n)) ([], 0)).1
+
+def fmtVol (f : Nat) (imgs : List (Img Int)) : List Int :=
+  let h' := (imgs.headD []).length
+  let w' := ((imgs.headD []).headD []).length
+  [(f : Int), (imgs.length : Int), (h' : Int), (w' : Int)] ++ imgs.flatMap fun i => i.flatten
+
+def sortDir {γ} (d : Dir γ) : Dir γ := (d.toArray.qsort fun a b => a.1 < b.1).toList
+
+def opPredict (layout cfg flags hs ws rx ry nums dens data : List Int) : String :=
+  match cfg, flags with
+  | [world, rank, bs], [cplx, crop, write] =>
+    let lay := nats layout
+    let nv := lay.length
+    let total := lay.sum
+    if world ≤ 0 ∨ rank < 0 ∨ rank ≥ world ∨ bs ≤ 0 ∨ layout.any (· ≤ 0) ∨ hs.length ≠ nv ∨ ws.length ≠ nv
+        ∨ nums.length ≠ total ∨ dens.length ≠ total ∨ (rx.length ≠ nv ∧ rx.length ≠ 0) ∨ ry.length ≠ rx.length
+        ∨ (cplx = 0 ∧ ws.any (· = 2)) then "err BadOp" else
+    let c : Nat := if cplx = 1 then 2 else 1
+    let per : List Nat := (List.range nv).map fun v => (hs.getD v 0).toNat * (ws.getD v 0).toNat * c
+    -- item -> volume, item -> offset of its data
+    let volOf : Array Nat := ((List.range nv).flatMap fun v => List.replicate (lay.getD v 0) v).toArray
+    let sizes : List Nat := (List.range total).map fun i => per.getD (volOf.getD i 0) 0
+    let offs := (offsets sizes).toArray
+    if data.length ≠ sizes.sum then "err BadOp" else
+    let arr := data.toArray
+    let raw (i : Nat) : List Int := (List.range (sizes.getD i 0)).map fun k => arr.getD (offs.getD i 0 + k) 0
     let scales := (List.zip nums dens).toArray
-    -- `_do_iteration` takes the modulus of a complex model output before `_process_output` scales it
     let fwd (i : Nat) : Img Int :=
-      if cplx = 1 then (toRows w.toNat (pairs (raw.getD i []))).map fun r => r.map fun p => modulusI p.1 p.2
-      else toRows w.toNat (raw.getD i [])
-    let out (i : Nat) : Option (Img Int) := processSlice mulQ res (fwd i) (scales.getD i (1, 1))
+      let w := (ws.getD (volOf.getD i 0) 0).toNat
+      if cplx = 1 then (toRows w (pairs (raw i))).map fun r => r.map fun p => modulusI p.1 p.2
+      else toRows w (raw i)
+    let recon (i : Nat) : List Nat :=
+      if rx.length = 0 then [] else [(rx.getD (volOf.getD i 0) 0).toNat, (ry.getD (volOf.getD i 0) 0).toNat, 1]
     let exact := (List.range total).all fun i => (fwd i).all fun r => r.all (exactQ · (scales.getD i (1, 1)))
     if !exact then "err Inexact" else
-    let r := predict (nats layout) world.toNat rank.toNat bs.toNat out none
+    let r := predictFull mulQ lay world.toNat rank.toNat bs.toNat (cropKey crop) fwd (fun i => scales.getD i (1, 1)) recon id
     match r.2 with
-    | some e => "err " ++ (match e with | .valueError => "ValueError" | .keyError => "KeyError" | .runtimeError => "RuntimeError")
+    | some e => "err " ++ errName e
     | none =>
-      if r.1.any fun (vol, _) => vol.any Option.isNone then "err ValueError" else
-      okG (r.1.map fun (vol, f) =>
-        let imgs := vol.map fun o => o.getD []
-        let h' := (imgs.headD []).length
-        let w' := ((imgs.headD []).headD []).length
-        [(f : Int), (imgs.length : Int), (h' : Int), (w' : Int)] ++ imgs.flatMap fun i => i.flatten)
-  | _, _, _ => "err BadOp"
+      if write = 0 then okG (r.1.map fun (vol, f) => fmtVol f vol)
+      else
+        let d : Dir (List (Img Int)) := writeOutput id id "reconstruction" [] r.1
+        okG ((sortDir d).map fun e => fmtVol e.1 e.2.2)
+  | _, _ => "err BadOp"
+
+/-- `write_output_to_h5` on arbitrary tuples.  names = (dir, base) pairs; dims = (n, c, h, w) per volume -/
+def opWrite (flags names dims data : List Int) : String :=
+  match flags with
+  | [create, dirExists] =>
+    let nm := pairs names
+    let nv := nm.length
+    if dims.length ≠ 4 * nv then "err BadOp" else
+    if create = 0 ∧ dirExists = 0 ∧ nv > 0 then "err FileNotFoundError" else
+    let dim (v k : Nat) : Nat := (dims.getD (4 * v + k) 0).toNat
+    let sizes := (List.range nv).map fun v => dim v 0 * dim v 1 * dim v 2 * dim v 3
+    if data.length ≠ sizes.sum then "err BadOp" else
+    let offs := offsets sizes
+    let vols : List (List (List (Img Int)) × Nat) := (List.range nv).map fun v =>
+      let d := (data.drop (offs.getD v 0)).take (sizes.getD v 0)
+      -- (slice, channel, h, w)
+      let slices := chunksOf (dim v 1 * dim v 2 * dim v 3) d
+      (slices.map fun s => (chunksOf (dim v 2 * dim v 3) s).map (toRows (dim v 3)), v)
+    let base (v : Nat) : Nat := ((nm.getD v (0, 0)).2).toNat
+    let dir : Dir (List (Img Int)) :=
+      writeOutput base (fun (vol : List (List (Img Int))) => vol.map fun s => s.headD []) "reconstruction" [] vols
+    okG ((sortDir dir).map fun e => fmtVol e.1 e.2.2)
+  | _ => "err BadOp"
+
+/-- `Engine.build_batch_sampler`: type 0 = "random", 1 = "sequential", 2 = "Random", 3 = None, 4 = "";
+input 0 = one dataset, 1 = list of datasets, 2 = list with a non-dataset -/
+def opBbs (ty inp : Int) : String :=
+  let t : Option String := if ty = 0 then some "random" else if ty = 1 then some "sequential"
+    else if ty = 2 then some "Random" else if ty = 4 then some "" else none
+  match buildBatchSampler t (inp = 1) with
+  | .error e => "err " ++ errName e
+  | .ok .concatDatasetBatchSampler => "ok 0"
+  | .ok .batchVolumeOverSequential => if inp = 0 then "ok 1" else "err AttributeError"
 
 def step (op : String) (gs : List (List Int)) : String :=
   match op, gs with
   | "process", [shape, data, nums, dens, res] => opProcess shape data nums dens res
+  | "procbatch", [key] :: shape :: data :: nums :: dens :: recon => opProcBatch key shape data nums dens recon
   | "recon", table :: rest => opRecon table rest
-  | "predict", [layout, cfg, shp, res, nums, dens, data] => opPredict layout cfg shp res nums dens data
+  | "predict", [layout, cfg, flags, hs, ws, rx, ry, nums, dens, data] => opPredict layout cfg flags hs ws rx ry nums dens data
+  | "write", [flags, names, dims, data] => opWrite flags names dims data
+  | "bbs", [[ty, inp]] => opBbs ty inp
   | _, _ => "err BadOp"
 
 end DirectVerif.Driver.C14
